@@ -16,14 +16,14 @@ from .. import common, gw
 from ..common import Ctx
 
 THEOREMS = ["C13_snapshot_leaves_engine", "C13_snapshots_leave_engine", "C13_still_receiving", "C13_snapshot_when_paused",
-            "C13_engine_invariant", "C13_never_stuck", "C13_unguarded_refuted", "C13_guarded_repaired"]
+            "C13_engine_invariant", "C13_never_stuck", "C13_unguarded_refuted", "C13_guarded_repaired", "C13_merged_guard_refuted"]
 
 PRELUDE = ("From Coq Require Import List Bool Arith.\nFrom RV Require Import M_Engine.\nImport ListNotations.\n"
            "Set Printing Width 1000000.\nSet Printing Depth 1000000.\n"
            "Definition b2n (b : bool) : nat := if b then 1 else 0.\n"
            "Definition oc (o : outcome) : nat := match o with Done => 1 | BodyRaised => 2 | RuntimeErr => 3 | Handled _ => 4 | Dropped => 5 end.\n"
            "Definition obs (e : eng) : list nat := [b2n (match saved e with Some _ => true | None => false end); "
-           "b2n (match handler e with Some _ => true | None => false end); b2n (sending_off e); b2n (disc_off e); b2n (wr_paused e)].\n"
+           "b2n (match handler e with Some _ => true | None => false end); b2n (sending_off e); b2n (disc_off e); b2n (wr_paused e); b2n (rd_paused e)].\n"
            "Fixpoint trace (e : eng) (ops : list op) : list (list nat) := match ops with [] => [] | o :: r => "
            "let '(e1, x) := step true e o in (oc x :: obs e1) :: trace e1 r end.\n")
 
@@ -31,14 +31,19 @@ OPS = ["GetState false", "GetState true", "Restore false", "Restore true", "Paus
 PROBE = "045  I --- 01:145038 --:------ 01:145038 30C9 003 0007D0"
 
 
-async def engine_run(ops, writeable, disc_off):
-    """Run an op sequence on a real Gateway; returns [[outcome, paused, handler, sending_off, disc_off, wr_paused], ...]."""
+async def engine_run(ops, writeable, disc_off, started=True):
+    """Run an op sequence on a real Gateway; returns [[outcome, paused, handler, sending_off, disc_off, wr_paused, rd_paused], ...].
+    started=False: a sending-enabled gateway that has not been started yet (no transport)."""
+    from ramses_rf import Gateway  # noqa: PLC0415
     from ramses_tx.packet import Packet  # noqa: PLC0415
     from ramses_tx.protocol import protocol_factory  # noqa: PLC0415
 
-    gwy = await gw.make_gateway(["2026-01-01T12:00:00.000000 " + PROBE])
+    if started:
+        gwy = await gw.make_gateway(["2026-01-01T12:00:00.000000 " + PROBE])
+    else:
+        gwy = Gateway("/dev/ttyVERIF", config={"disable_discovery": disc_off})
     gwy.config.disable_discovery = disc_off
-    if writeable:  # the same engine code over a writeable protocol
+    if writeable and started:  # the same engine code over a writeable protocol
         gwy._disable_sending = False
         gwy._protocol = protocol_factory(gwy._msg_handler, disable_sending=False, disable_qos=True)
     rows, t = [], _dt.datetime(2026, 1, 1, 13)
@@ -89,11 +94,12 @@ async def engine_run(ops, writeable, disc_off):
             finally:
                 gwy.devices[:] = [d for d in gwy.devices if not isinstance(d, Boom)]
             o = gw.engine_obs(gwy)
-            rows.append([oc, int(o["paused"]), int(o["handler"]), int(o["sending_disabled"]), int(o["discovery_disabled"]), int(o["pause_writing"])])
+            rows.append([oc, int(o["paused"]), int(o["handler"]), int(o["sending_disabled"]), int(o["discovery_disabled"]), int(o["pause_writing"]), int(o["reading_paused"])])
     finally:
         if gwy._engine_state is not None:
             gwy._resume()
-        await gwy.stop()
+        if started:
+            await gwy.stop()
     return rows
 
 
@@ -104,17 +110,19 @@ def correspondence(ctx: Ctx, built: bool, thorough: bool):
     seqs += [[rng.choice(OPS) for _ in range(rng.randint(3, 9))] for _ in range(400 if thorough else 120)]
     cases, impl = [], []
     for ops in seqs:
-        for writeable, disc in ((False, True), (True, False), (True, True)):
-            rows, _ = gw.run_async(engine_run, ops, writeable, disc)
+        for writeable, disc, started in ((False, True, True), (True, False, True), (True, True, True), (True, False, False)):
+            if not started and ("Rx" in ops or any(o.startswith("Restore") for o in ops)):
+                continue          # before start() there is no transport to take a packet from, and a restore needs a running loop's transport factory
+            rows, _ = gw.run_async(engine_run, ops, writeable, disc, started)
             impl.append(rows)
             # the property itself, on the implementation: a snapshot/restore of an up engine changes nothing
-            prev = [0, 1, int(not writeable), int(disc), int(not writeable)]
+            prev = [0, 1, int(not writeable), int(disc), int(not writeable), 0]
             for op, row in zip(ops, rows):
                 if op.split()[0] in ("GetState", "Restore") and prev[0] == 0 and row[1:] != prev:
                     what = "raising" if op.endswith("true") else "succeeding"
                     ctx.violation(f"engine-changed-by:{op.split()[0]}:{what}-body",
-                                  f"{op.split()[0]} with a {what} body changed the engine (paused, handler, sending_off, discovery_off, writing_paused) from {prev} to {row[1:]}",
-                                  {"ops": ops, "writeable": writeable, "discovery_disabled": disc, "trace": rows}, "operation-sequence")
+                                  f"{op.split()[0]} with a {what} body changed the engine (paused, handler, sending_off, discovery_off, writing_paused, reading_paused) from {prev} to {row[1:]}",
+                                  {"ops": ops, "writeable": writeable, "discovery_disabled": disc, "started": started, "trace": rows}, "operation-sequence")
                     break
                 if op.split()[0] in ("GetState", "Restore") and prev[0] == 1 and (row[1:] != prev or row[0] != 3):
                     ctx.violation(f"engine-changed-by:{op.split()[0]}:while-paused",
@@ -123,9 +131,9 @@ def correspondence(ctx: Ctx, built: bool, thorough: bool):
                                   {"ops": ops, "writeable": writeable, "discovery_disabled": disc, "trace": rows}, "operation-sequence")
                     break
                 prev = row[1:]
-            e0 = f"mkEng (Some 7) {str(not writeable).lower()} {str(disc).lower()} {str(not writeable).lower()} None"
+            e0 = f"mkEng (Some 7) {str(not writeable).lower()} {str(disc).lower()} {str(not writeable).lower()} None {str(started).lower()} false"
             cases.append(f"trace ({e0}) [{'; '.join(ops)}]")
-            ctx.case(("engine-ops", tuple(ops), writeable, disc), any("true" in o for o in ops), "engine-op-sequence")
+            ctx.case(("engine-ops", tuple(ops), writeable, disc, started), any("true" in o for o in ops), "engine-op-sequence")
     if not built:
         ctx.obligation("correspondence:engine-automaton", False, "correspondence", "model not built")
         return
@@ -257,6 +265,40 @@ async def history_trial(lines, cfg, eav, chunks, probe):
     return out
 
 
+async def mid_history(lines, cfg, k, what):
+    """Replay a log through the file transport; at the k-th message handled, take a snapshot (get) or restore one (restore) from inside the
+    running gateway; returns the number of messages handled in all (-1: the replay never finished)."""
+    import io  # noqa: PLC0415
+    import json  # noqa: PLC0415
+
+    from ramses_rf import Gateway  # noqa: PLC0415
+
+    cfg = json.loads(json.dumps(cfg or {}))
+    cfg.setdefault("config", {}).update({"disable_discovery": True})
+    seen = []
+    gwy = Gateway(None, input_file=io.TextIOWrapper(io.BytesIO("".join(ln + "\n" for ln in lines).encode())), **cfg)
+
+    def handler(msg):
+        seen.append(msg)
+        if len(seen) == k and what == "get":
+            gwy.get_state()
+        elif len(seen) == k and what == "restore":
+            asyncio.ensure_future(gwy._restore_cached_packets({lines[0][:26]: lines[0][27:]}))
+
+    gwy.add_msg_handler(handler)
+    hung = False
+    try:
+        await asyncio.wait_for(gwy.start(), 3)         # returns when the whole log has been read
+        await gw.settle(60)
+    except (asyncio.CancelledError, TimeoutError, Exception):  # noqa: BLE001
+        hung = True
+    try:
+        await asyncio.wait_for(gwy.stop(), 2)
+    except (asyncio.CancelledError, TimeoutError, Exception):  # noqa: BLE001
+        pass
+    return -1 if hung else len(seen)
+
+
 async def foreign_trial(own, foreign, cfg, eav):
     """Does foreign traffic stop the gateway tracking its own system?  Zone temperatures after own(+foreign)+probe."""
     res = []
@@ -322,6 +364,17 @@ def run(ctx: Ctx) -> None:
         for sig, a, b in out["bad"]:
             ctx.violation(sig, f"{sig} ({a}; {b}) after a {kind} history of system {name}",
                           {"system": name, "kind": kind, "eavesdrop": eav, "chunks": chunks, "detail": [a, b], "lines": lines}, "history")
+    # a snapshot / restore in the MIDDLE of a log being replayed through the transport: the rest of the log still arrives
+    for name, base, cfg in (syss if thorough else syss[:4]):
+        lines = base[:60]
+        n0, _ = gw.run_async(mid_history, lines, cfg, 0, "none")
+        for what in ("get", "restore"):
+            for k in sorted({1, max(1, (n0 or 2) // 2), max(1, (n0 or 2) - 1)}):
+                n, _ = gw.run_async(mid_history, lines, cfg, k, what)
+                ctx.case(("mid-history", name, k, what), True, "history:snapshot-while-replaying")
+                if n0 is not None and n0 > 0 and n is not None and (n < n0):
+                    ctx.violation(f"rest-of-the-log-not-received-after:{what}", f"{what} at message {k} of a log of system {name} being replayed: {n} messages handled, {n0} without it "
+                                  "(-1: the replay never finished)", {"system": name, "k": k, "what": what, "handled": n, "handled_without": n0, "lines": lines}, "history")
     # foreign traffic
     n_for = 60 if thorough else 12
     for i in range(n_for):
